@@ -24,6 +24,10 @@ FNS = {
     23: ("sqn.SO3d", 2, 4), 24: ("sqn.SE2d", 2, 4), 25: ("sqn.SE3d", 2, 2), 26: ("linact.SO3d", 2, 4), 27: ("linact.SE3d", 2, 4),
     28: ("spoly.s_v2_wX", 3, 4), 29: ("vsqn.vecSO3_SO3", 2, 2), 30: ("sbun.Bundle_v3", 2, 4),
     31: ("ana.JH.SO3_v3", 2, 4), 32: ("ana.J.v2_s", 2, 8), 33: ("ana.ref.v2", 1, 8), 34: ("ana.J.SE2_SE2", 2, 8),
+    # std::vector<VectorXd> arguments: ragged {3,4,2}, {1,5} (with an SO3d), {2,2,3} (between a Vector2d and a double),
+    # equal-length {3,3}; nested ragged std::vector<std::vector<VectorXd>> {{2,3},{1}} (with a double)
+    35: ("vvmap.ragged342", 1, 8), 36: ("svv.ragged15_SO3", 2, 4), 37: ("svv.v2_ragged223_s", 3, 4), 38: ("svv.equal33", 1, 8),
+    39: ("snest.ragged23_1_s", 2, 4),
 }
 PLAN = {"quick": dict(n=8, scale=1), "thorough": dict(n=160, scale=4)}
 
@@ -35,11 +39,16 @@ REQUIRED_CELLS = [
     "clause|C08.analytic.K1.ana", "clause|C08.analytic.K1.def", "clause|C08.analytic.K2.ana", "clause|C08.analytic.K2.def",
     "clause|C08.restore.m", "clause|C08.restore.mm", "clause|C08.restore.mmm", "clause|C08.restore.cm", "clause|C08.restore.mc",
     "clause|C08.restore.cmc", "clause|C08.restore.mcm", "clause|C08.restore.ccc",
+    # accuracy actually decided for every std::vector argument shape, in particular the ragged ones
+    "acc|vvmap.ragged342|jac", "acc|svv.ragged15_SO3|jac", "acc|svv.ragged15_SO3|hess",
+    "acc|svv.v2_ragged223_s|jac", "acc|svv.v2_ragged223_s|hess", "acc|svv.equal33|jac", "acc|svv.equal33|hess",
+    "acc|snest.ragged23_1_s|jac", "acc|snest.ragged23_1_s|hess",
+    "acc|vprod.vecSO3_SO3|jac", "acc|vact.vecSO3_v3_s|jac", "acc|vsqn.vecSO3_SO3|jac", "acc|vsqn.vecSO3_SO3|hess",
 ]
 
 ASSUME = [
     "oracle: expression tree of the callable evaluated over exact rationals from the documented matrix forms (spec/Groups.tla): chain rule over Ad = vee(M hat(e_i) M^-1), Jr = Phi1(-ad) by certified power series, matrix actions, monomial differentiation; logarithms are specified relationally (Exp(w) = M, residual solved to 1e-40 from the logged witness); Hessians by exact central differences (h = 2^-32) of the exact Jacobian, truncation h^2/6 |d^3 J| assumed < 1e-9 on the family",
-    "the callables are a closed finite family (34 callables, about 1400 compile-time instantiations of dr); points are a seeded sample (generic / coordinates at 0.1 and 10 / many zero coordinates / identity), not all points",
+    "the callables are a closed finite family (39 callables, about 1600 compile-time instantiations of dr); points are a seeded sample (generic / coordinates at 0.1 and 10 / many zero coordinates / identity), not all points",
     "'O(1) values and derivatives' is read as: no value entry above 10 and the largest entry of the requested exact Jacobian / Hessian in [0.1, 10] (the property's own range for 'magnitude'); calls outside are not judged for accuracy (counted as skipped)",
     "the value clause compares with the callable evaluated directly by the harness (bitwise) and with the specification's exact value (1e-9)",
     "TLC, the JVM and the BigRat / RFun Java overrides (differentially tested against the plain TLA+ definitions) are trusted",
@@ -184,7 +193,8 @@ def check(prop, tier, seed, replay=None):
                                   "dr_instantiations": len(calls), "dr_calls_validated": sum(calls.values()),
                                   "accuracy_decisions": judged, "accuracy_skipped_not_O1": skipped,
                                   "argument_types": ["SO3d", "SE2d", "SE3d", "Bundle<SO3d,Vector3d>", "Vector2d", "Vector3d",
-                                                     "VectorXd", "double", "std::vector<SO3d>"],
+                                                     "VectorXd", "double", "std::vector<SO3d>", "std::vector<VectorXd> (ragged and equal-length)",
+                                                     "std::vector<std::vector<VectorXd>> (ragged)"],
                                   "checker_cmd": "java tlc2.TLC -config TraceDiff.cfg TraceDiff.tla (one process per trace chunk)"})
         if partial and rc == 0:
             raise V.ToolFailure("partial run (VERIF_C08_FNS set): no violation among the selected callables; not a verdict for C08")
